@@ -164,6 +164,66 @@ def c04_fba(E, templates=("T1", "T2", "T7"), inf_on=False):
             E.prove(isinstance(e, want), "slim-raises-matching-exception", oracle=status, got=type(e).__name__)
 
 
+def c04_after_history(E, k=1):
+    """the optimum reported after a history of edits is the optimum of the model as it then stands (the oracle LP
+    is rebuilt from the Python objects after the edits, so a solver problem that fell out of step shows as a wrong
+    optimum, status or flux vector)"""
+    from cobra.util.solver import linear_reaction_coefficients
+    from vlib.ops import B, OPS, State, base_model
+    env.for_path(E)
+    S = State()
+    m = base_model(E, sym_coef=False)
+    real = E
+
+    class ConcreteCoefficients(object):
+        """the oracle LP needs a concrete matrix and objective (a symbolic coefficient times a flux is non-linear):
+        numeric arguments that are not flux bounds take one of two concrete values, by exhaustive choice"""
+        def __getattr__(self, k):
+            return getattr(real, k)
+
+        def real(self, name, lo=None, hi=None):
+            if lo is None or hi is None or abs(lo) >= 20 or abs(hi) >= 20:
+                return real.real(name, lo, hi)
+            return real.pick(name, [hi, lo if lo != 0 else hi / 2.0])
+    E_ops = ConcreteCoefficients()
+    names = [n for n in OPS if n not in ("cons_vars", "copy", "merge", "detached_edit", "groups", "repair")]
+    shape = E.pick("history", ["edits", "remove, edit the detached reaction, restore by leaving the context"])
+    ctx = shape != "edits" or E.flag("inside_context_then_left")
+    if ctx:
+        m.__enter__()
+    for i in range(k if shape == "edits" else 2):
+        try:
+            name = E.pick("edit%d" % i, names) if shape == "edits" else ("remove_reactions", "detached_edit")[i]
+            OPS[name][0](E_ops, m, S)
+        except Exception:
+            return      # an operation failing outside its documented exceptions is C01/C02's to report
+    if ctx and (shape != "edits" or E.flag("leave_before_optimizing")):
+        try:
+            m.__exit__(None, None, None)
+        except Exception:
+            return      # C03's to report
+    if getattr(S, "asym_ok", None) or getattr(S, "undocumented", None) or any(l[2] for l in S.log):
+        return          # objectives outside c*(forward-reverse) have no oracle here; raising edits are C01's subject
+    obj = {r.id: c for r, c in linear_reaction_coefficients(m).items()}
+    direction = m.objective_direction
+    E.note(ops=[l[0] for l in S.log], objective=sorted(obj), direction=direction)
+    lp = fba_lp(m)
+    status, opt, pt, duals = lp.optimum(E, obj, direction, name="oracle")
+    try:
+        sol = m.optimize()
+        raised = None
+    except OptimizationError as e:
+        sol, raised = None, e
+    if status == "optimal":
+        E.prove(raised is None and sol is not None and sol.status == "optimal", "status-optimal-when-optimum-exists",
+                got=(sol.status if sol is not None else repr(raised)))
+        if sol is not None and sol.status == "optimal":
+            _certify(E, m, sol, obj, direction, opt, tag="")
+    else:
+        E.prove(raised is not None or sol.status != "optimal", "not-optimal-when-no-optimum", oracle=status,
+                got=(sol.status if sol is not None else repr(raised)))
+
+
 def c04_inf(E):
     """infinite bounds: T1 with the bounds of EX_A, DM_B and the upper bound of R1 finite-or-infinite (unbounded LPs occur)"""
     return c04_fba(E, templates=("T1",), inf_on="some")
@@ -227,6 +287,11 @@ HARNESSES = [
       bounds="templates T1,T2,T7 (3-4 reactions, 2 metabolites, non-unit stoichiometry in T7); every flux bound a "
              "symbolic real in [-10,10] with lb<=ub; every template objective (incl. two-reaction, coefficient 2) x "
              "max/min; optimize, optimize(raise_error), slim_optimize(error_value symbolic/0.0/nan/None), accessors"),
+    H("c04_after_history", c04_after_history, quick=dict(max_paths=20000, time_budget=60),
+      thorough=dict(max_paths=200000, time_budget=300), witness_every=40,
+      bounds="base model of the edit alphabet (5 reactions, R1 with symbolic bounds), one operation of the alphabet (every "
+             "argument shape) outside a context, inside an open one, or inside one that is left before optimising; then "
+             "optimize() against an oracle LP rebuilt from the Python objects"),
     H("c04_inf", c04_inf, tiers=("quick",), quick=dict(max_paths=8000, time_budget=60),
       bounds="T1; lower bounds finite symbolic or -inf, upper bounds finite symbolic or +inf (R1 lower bound finite)"),
     H("c04_inf_thorough", c04_inf_thorough, tiers=("thorough",), thorough=dict(max_paths=200000, time_budget=400),
